@@ -286,20 +286,15 @@ Proof. intros A B. split; assumption. Qed.
 Lemma T_logc (PA : path -> Prop) s c : AB PA c -> T PA s (logc s c).
 Proof. intros H. split; [intros b [<-|Hb]; auto|auto]. Qed.
 
+(* matches on numbers only compute reply fields or attribute values, never a state: they are left alone *)
+Ltac not_number x := lazymatch type of x with N => fail | positive => fail | _ => idtac end.
+Ltac has_inner_match x :=
+  match x with context [match ?y with _ => _ end] => not_number y end.
+(* destruct every scrutinee, innermost first *)
 Ltac des :=
   repeat (cbn [fst snd]; match goal with
   | |- context [match ?x with _ => _ end] =>
-      (* innermost first: a scrutinee that itself contains a match is left for a later round *)
-      lazymatch x with
-      | context [match _ with _ => _ end] => fail
-      | _ =>
-        (* matches on numbers only compute reply fields or attribute values, never a state *)
-        lazymatch type of x with
-        | N => fail
-        | positive => fail
-        | _ => destruct x eqn:?
-        end
-      end
+      not_number x; tryif has_inner_match x then fail else destruct x eqn:?
   end).
 
 Lemma with_fs_same s f : same s (with_fs s f). Proof. split; reflexivity. Qed.
@@ -457,3 +452,437 @@ Ltac chain3 :=
   | |- T _ ?a (fst (srv_setattr ?b _ _ _ _)) => apply T_trans with b; [|apply srv_setattr_T; pa]
   end; chain2).
 Ltac handler := cbv zeta; des; ctx; collect3; chain3.
+
+(* ====================================================================================================== *)
+(* 5. the handlers, for any PA that allows what the handler hands to the backend                           *)
+(* ====================================================================================================== *)
+Section HandlersSimple.
+Variable PA : path -> Prop.
+Variable s : srv.
+Variable h : N.
+Hypothesis H1 : forall p, get (hm s) h = Some p -> PA p.
+
+Lemma handle_getattr_T : T PA s (fst (handle_getattr s h)).
+Proof. unfold handle_getattr. handler. Qed.
+Lemma handle_access_T c m : T PA s (fst (handle_access s c h m)).
+Proof. unfold handle_access. handler. Qed.
+Lemma handle_fsx_T f : T PA s (fst (handle_fsx s h f)).
+Proof. unfold handle_fsx. handler. Qed.
+Lemma handle_commit_T : T PA s (fst (handle_commit s h)).
+Proof. unfold handle_commit. handler. Qed.
+Lemma handle_readlink_T : T PA s (fst (handle_readlink s h)).
+Proof. unfold handle_readlink. handler. Qed.
+Lemma handle_read_T off cnt : T PA s (fst (handle_read s h off cnt)).
+Proof. unfold handle_read. handler. Qed.
+Lemma handle_write_T off cnt st data : T PA s (fst (handle_write s h off cnt st data)).
+Proof. unfold handle_write. handler. Qed.
+Lemma handle_setattr_T c sa g : T PA s (fst (handle_setattr s c h sa g)).
+Proof. unfold handle_setattr. handler. Qed.
+
+Variable n : name.
+Hypothesis H2 : forall p, get (hm s) h = Some p -> vname n -> PA (p ++ [n]).
+Lemma handle_lookup_T : T PA s (fst (handle_lookup s h n)).
+Proof. unfold handle_lookup. handler. Qed.
+Lemma handle_create_T c how sa : T PA s (fst (handle_create s c h n how sa)).
+Proof. unfold handle_create. handler. Qed.
+Lemma handle_mkdir_T c sa : T PA s (fst (handle_mkdir s c h n sa)).
+Proof. unfold handle_mkdir. handler. Qed.
+Lemma handle_symlink_T c sa t : T PA s (fst (handle_symlink s c h n sa t)).
+Proof. unfold handle_symlink. handler. Qed.
+Lemma handle_remove_T : T PA s (fst (handle_remove s h n)).
+Proof. unfold handle_remove. handler. Qed.
+Lemma handle_rmdir_T : T PA s (fst (handle_rmdir s h n)).
+Proof. unfold handle_rmdir. handler. Qed.
+End HandlersSimple.
+
+Lemma handle_rename_T (PA : path -> Prop) s h1 n1 h2 n2 :
+  (forall p, get (hm s) h1 = Some p -> PA p) -> (forall p, get (hm s) h1 = Some p -> vname n1 -> PA (p ++ [n1])) ->
+  (forall p, get (hm s) h2 = Some p -> PA p) -> (forall p, get (hm s) h2 = Some p -> vname n2 -> PA (p ++ [n2])) ->
+  T PA s (fst (handle_rename s h1 n1 h2 n2)).
+Proof. intros A1 A2 B1 B2. unfold handle_rename. handler. Qed.
+
+Lemma handle_mnt_T (PA : path -> Prop) s p : PA (clean_comps [] (split_path p)) -> T PA s (fst (handle_mnt s p)).
+Proof. intros H. unfold handle_mnt. handler. Qed.
+
+(* ---------- directory listings ---------- *)
+Lemma lookup_all_T (PA : path -> Prop) d names : (forall n, name_sane n = true -> PA (d ++ [n])) ->
+  forall s, T PA s (fst (lookup_all s d names)) /\ forall e, In e (snd (lookup_all s d names)) -> PA (fst e).
+Proof.
+  intros Hd. induction names as [|n r IH]; intros s; cbn [lookup_all]; [split; [apply T_refl|intros e []]|].
+  destruct (is_dot n || is_dotdot n || negb (sanitize_ok d n)) eqn:E; [apply IH|].
+  apply orb_false_elim in E. destruct E as [_ E]. apply negb_false_iff, sanitize_ok_sane in E.
+  pose proof (Hd n E) as Hn.
+  destruct (srv_lookup s (d ++ [n])) as [s1 lr] eqn:E1.
+  destruct (IH s1) as [I1 I2]. destruct (lookup_all s1 d r) as [s2 rest]. cbn [fst snd] in I1, I2.
+  assert (R : T PA s s1) by (pose proof (srv_lookup_T PA s (d ++ [n]) Hn) as R; rewrite E1 in R; exact R).
+  destruct lr as [a|er]; cbn [fst snd]; (split; [eapply T_trans; eassumption|]).
+  - intros e [<-|He]; [exact Hn|apply I2; exact He].
+  - exact I2.
+Qed.
+Lemma refresh_all_T (PA : path -> Prop) l : forall s, (forall e, In e l -> PA (fst e)) ->
+  T PA s (fst (refresh_all s l)) /\ forall e, In e (snd (refresh_all s l)) -> PA (fst e).
+Proof.
+  induction l as [|[p a] r IH]; intros s Hl; cbn [refresh_all]; [split; [apply T_refl|intros e []]|].
+  assert (Hp : PA p) by (apply (Hl (p, a)); left; reflexivity).
+  assert (Hr : forall e, In e r -> PA (fst e)) by (intros e He; apply Hl; right; exact He).
+  destruct (ac_get s p) as [s0 x] eqn:E0. destruct (do_lstat s0 p) as [s1 li] eqn:E1.
+  assert (R0 : T PA s s0) by (pose proof (ac_get_same s p) as R; rewrite E0 in R; apply T_of_same; exact R).
+  assert (R1 : T PA s0 s1) by (pose proof (do_lstat_T PA s0 p Hp) as R; rewrite E1 in R; exact R).
+  destruct li as [fi|er].
+  - destruct (IH (ac_put s1 p (attrs_of_info fi (na_fileid a) (na_uid a) (na_gid a))) Hr) as [I1 I2].
+    destruct (refresh_all _ r) as [s2 rest]. cbn [fst snd] in *. split.
+    + eapply T_trans; [|exact I1]. eapply T_trans; [exact R0|]. eapply T_trans; [exact R1|]. apply T_of_same, ac_put_same.
+    + intros e [<-|He]; [exact Hp|apply I2; exact He].
+  - destruct (IH s1 Hr) as [I1 I2]. destruct (refresh_all s1 r) as [s2 rest]. cbn [fst snd] in *. split.
+    + eapply T_trans; [|exact I1]. eapply T_trans; eassumption.
+    + intros e [<-|He]; [exact Hp|apply I2; exact He].
+Qed.
+Lemma page_sub plus limit cookie l : forall i sent len ie,
+  In ie (fst (page plus limit i cookie sent len l)) -> In (snd ie) l.
+Proof.
+  induction l as [|e r IH]; intros i sent len ie; cbn [page]; [intros []|].
+  destruct (i <? cookie); [intros H; right; eapply IH; exact H|].
+  match goal with |- context [if ?c then _ else _] => destruct c end; [intros []|].
+  match goal with |- context [page ?a ?b ?c ?d ?e ?f r] => pose proof (IH c e f ie) as I; destruct (page a b c d e f r) as [rest lim] end.
+  cbn [fst] in *. intros [<-|H]; [left; reflexivity|right; apply I; exact H].
+Qed.
+Lemma alloc_all_T (PA : path -> Prop) pg : forall s, (forall ie, In ie pg -> PA (fst (snd ie))) ->
+  T PA s (fst (alloc_all s pg)).
+Proof.
+  induction pg as [|[ck [p a]] r IH]; intros s Hl; cbn [alloc_all]; [apply T_refl|].
+  assert (Hp : PA p) by (apply (Hl (ck, (p, a))); left; reflexivity).
+  destruct (alloc s p a) as [s1 fh] eqn:E.
+  assert (R : T PA s s1) by (pose proof (alloc_T PA s p a Hp) as R; rewrite E in R; exact R).
+  pose proof (IH s1 (fun ie H => Hl ie (or_intror H))) as I. destruct (alloc_all s1 r) as [s2 rest]. cbn [fst] in *.
+  eapply T_trans; eassumption.
+Qed.
+Lemma srv_readdir_T (PA : path -> Prop) s d : PA d -> (forall n, name_sane n = true -> PA (d ++ [n])) ->
+  T PA s (fst (srv_readdir s d)) /\ forall l, snd (srv_readdir s d) = Ok l -> forall e, In e l -> PA (fst e).
+Proof.
+  intros Hd Hn. unfold srv_readdir.
+  assert (Hhit : T PA s (fst (if dir_on (conf s) then dc_get s d else (s, None)))).
+  { destruct (dir_on (conf s)); [apply T_of_same, dc_get_same|apply T_refl]. }
+  destruct (if dir_on (conf s) then dc_get s d else (s, None)) as [s0 hit]. cbn [fst snd] in *.
+  destruct hit as [names|].
+  - destruct (lookup_all_T PA d names Hn s0) as [I1 I2]. destruct (lookup_all s0 d names) as [s1 l]. cbn [fst snd] in *.
+    split; [eapply T_trans; eassumption|]. intros l' [= <-]. exact I2.
+  - assert (R1 : T PA s (logc s0 (bc BOpenR d))).
+    { eapply T_trans; [exact Hhit|]. apply T_logc, AB_bc; [exact Hd|exact I]. }
+    destruct (be_open (fs (logc s0 (bc BOpenR d))) d false) as [q|e]; cbn [fst snd]; [|split; [exact R1|discriminate]].
+    assert (R2 : T PA s (logc (logc s0 (bc BOpenR d)) (bc BReaddir d))).
+    { eapply T_trans; [exact R1|]. apply T_logc, AB_bc; [exact Hd|exact I]. }
+    destruct (be_readdir _ q) as [ents|e]; cbn [fst snd]; [|split; [exact R2|discriminate]].
+    match goal with |- context [lookup_all ?st d ?nm] =>
+      destruct (lookup_all_T PA d nm Hn st) as [I1 I2]; destruct (lookup_all st d nm) as [s4 l] end.
+    cbn [fst snd] in *. split; [|intros l' [= <-]; exact I2].
+    eapply T_trans; [|exact I1]. eapply T_trans; [exact R2|].
+    destruct (dir_on _); [apply T_of_same, dc_put_same|apply T_refl].
+Qed.
+
+Section Readdir.
+Variable PA : path -> Prop.
+Variable s : srv.
+Variable h : N.
+Hypothesis H1 : forall p, get (hm s) h = Some p -> PA p.
+Hypothesis H3 : forall p n, get (hm s) h = Some p -> name_sane n = true -> PA (p ++ [n]).
+
+Lemma handle_readdir_T ck cnt : T PA s (fst (handle_readdir s h ck cnt)).
+Proof.
+  unfold handle_readdir. destruct (lookup_node s h) as [[d da]|] eqn:L; [|apply T_refl].
+  apply lookup_node_get in L. pose proof (H1 d L) as Hd.
+  destruct (negb (kind_eqb (na_kind da) KDir)); [apply T_refl|].
+  destruct (srv_readdir_T PA s d Hd (fun n Hn => H3 d n L Hn)) as [R1 _].
+  destruct (srv_readdir s d) as [s1 r]. cbn [fst snd] in R1.
+  destruct r as [ents|e]; [|exact R1].
+  pose proof (getattr_h_T PA s1 h d Hd) as R2. destruct (getattr_h s1 h d) as [s2 ga]. cbn [fst] in R2.
+  destruct ga as [a|e]; [destruct (page _ _ _ _ _ _ _)|]; cbn [fst]; eapply T_trans; eassumption.
+Qed.
+Lemma handle_readdirplus_T ck mc : T PA s (fst (handle_readdirplus s h ck mc)).
+Proof.
+  unfold handle_readdirplus. destruct (lookup_node s h) as [[d da]|] eqn:L; [|apply T_refl].
+  apply lookup_node_get in L. pose proof (H1 d L) as Hd.
+  destruct (negb (kind_eqb (na_kind da) KDir)); [apply T_refl|].
+  destruct (srv_readdir_T PA s d Hd (fun n Hn => H3 d n L Hn)) as [R1 P1].
+  destruct (srv_readdir s d) as [s1 r]. cbn [fst snd] in R1, P1.
+  destruct r as [ents0|e]; [|exact R1].
+  destruct (refresh_all_T PA ents0 s1 (P1 ents0 eq_refl)) as [R2 P2].
+  destruct (refresh_all s1 ents0) as [s1' ents]. cbn [fst snd] in R2, P2.
+  pose proof (getattr_h_T PA s1' h d Hd) as R3. destruct (getattr_h s1' h d) as [s2 ga]. cbn [fst] in R3.
+  destruct ga as [a|e]; [|cbn [fst]; eapply T_trans; [exact R1|]; eapply T_trans; eassumption].
+  destruct (page true mc 0 ck 0 dir_header_len ents) as [pg lim] eqn:Epg.
+  assert (P3 : forall ie, In ie pg -> PA (fst (snd ie))).
+  { intros ie Hie. apply P2. apply (page_sub true mc ck ents 0 0 dir_header_len ie). rewrite Epg. exact Hie. }
+  pose proof (alloc_all_T PA pg s2 P3) as R4. destruct (alloc_all s2 pg) as [s3 des_]. cbn [fst] in *.
+  eapply T_trans; [exact R1|]. eapply T_trans; [exact R2|]. eapply T_trans; eassumption.
+Qed.
+End Readdir.
+
+(* ====================================================================================================== *)
+(* 6. one request                                                                                         *)
+(* ====================================================================================================== *)
+Definition is_listing (r : req) : bool :=
+  match r with RReaddir _ _ _ | RReaddirplus _ _ _ _ => true | _ => false end.
+
+Lemma step_T (PA : path -> Prop) s c r :
+  (forall h p, get (hm s) h = Some p -> PA p) ->
+  (forall h p n, get (hm s) h = Some p -> vname n -> PA (p ++ [n])) ->
+  (is_listing r = true -> forall h p n, get (hm s) h = Some p -> name_sane n = true -> PA (p ++ [n])) ->
+  (forall mp, r = RMnt mp -> PA (clean_comps [] (split_path mp))) ->
+  T PA (clear_log s) (fst (step s c r)).
+Proof.
+  intros C1 C2 C3 C4. unfold step. set (s0 := clear_log s).
+  assert (D1 : forall h p, get (hm s0) h = Some p -> PA p) by exact C1.
+  assert (D2 : forall h p n, get (hm s0) h = Some p -> vname n -> PA (p ++ [n])) by exact C2.
+  assert (D3 : is_listing r = true -> forall h p n, get (hm s0) h = Some p -> name_sane n = true -> PA (p ++ [n])) by exact C3.
+  clearbody s0. clear C1 C2 C3.
+  destruct (garbage_reply s0 r) as [o|]; cbn [fst]; [apply T_refl|].
+  destruct r; cbn [fst]; try apply T_refl.
+  - apply handle_getattr_T. exact (D1 h).
+  - apply handle_setattr_T. exact (D1 h).
+  - apply handle_lookup_T; [exact (D1 h)|exact (fun p => D2 h p n)].
+  - apply handle_access_T. exact (D1 h).
+  - apply handle_readlink_T. exact (D1 h).
+  - apply handle_read_T. exact (D1 h).
+  - apply handle_write_T. exact (D1 h).
+  - apply handle_create_T; [exact (D1 h)|exact (fun p => D2 h p n)].
+  - apply handle_mkdir_T; [exact (D1 h)|exact (fun p => D2 h p n)].
+  - apply handle_symlink_T; [exact (D1 h)|exact (fun p => D2 h p n)].
+  - apply handle_remove_T; [exact (D1 h)|exact (fun p => D2 h p n)].
+  - apply handle_rmdir_T; [exact (D1 h)|exact (fun p => D2 h p n)].
+  - apply handle_rename_T; [exact (D1 h1)|exact (fun p => D2 h1 p n1)|exact (D1 h2)|exact (fun p => D2 h2 p n2)].
+  - apply handle_readdir_T; [exact (D1 h)|]. intros p n. exact (D3 eq_refl h p n).
+  - apply handle_readdirplus_T; [exact (D1 h)|]. intros p n. exact (D3 eq_refl h p n).
+  - apply handle_fsx_T. exact (D1 h).
+  - apply handle_fsx_T. exact (D1 h).
+  - apply handle_fsx_T. exact (D1 h).
+  - apply handle_commit_T. exact (D1 h).
+  - apply handle_mnt_T. apply C4. reflexivity.
+  - apply T_of_same, with_conf_same.
+  - apply T_of_same, with_conf_same.
+  - apply T_of_same, with_conf_same.
+Qed.
+
+(* ---------- the statement of the property ---------- *)
+Definition HOK (s : srv) : Prop := forall h p, get (hm s) h = Some p -> gpath p.
+
+(* p is: a handle path of s; or one joined with a validated component; or (READDIR/READDIRPLUS) one joined
+   with a sane name of the listing; or (MNT) the cleaned path a handle is requested for *)
+Definition okp (s : srv) (r : req) (p : path) : Prop :=
+  (exists h hp, get (hm s) h = Some hp /\
+     (p = hp \/ exists c, p = hp ++ [c] /\ (vname c \/ (is_listing r = true /\ name_sane c = true))))
+  \/ (exists mp, r = RMnt mp /\ p = clean_comps [] (split_path mp)).
+Definition call_ok (s : srv) (r : req) (b : bcall) : Prop :=
+  okp s r (b_path b) /\ (b_op b = BRename -> exists np, b_path2 b = render np /\ okp s r np).
+
+Lemma okp_gpath s r p : HOK s -> okp s r p -> gpath p.
+Proof.
+  intros H [(h & hp & G & [->|(c & -> & [V|[_ V]])])|(mp & _ & ->)].
+  - exact (H h hp G).
+  - apply gpath_app; [exact (H h hp G)|apply vname_gcomp; exact V].
+  - apply gpath_app; [exact (H h hp G)|apply name_sane_gcomp; exact V].
+  - apply mnt_path_gpath.
+Qed.
+
+Lemma step_okp s c r : T (okp s r) (clear_log s) (fst (step s c r)).
+Proof.
+  apply step_T.
+  - intros h p G. left. exists h, p. split; [exact G|left; reflexivity].
+  - intros h p n G V. left. exists h, p. split; [exact G|right; exists n; split; [reflexivity|left; exact V]].
+  - intros L h p n G V. left. exists h, p. split; [exact G|right; exists n; split; [reflexivity|right; split; assumption]].
+  - intros mp E. right. exists mp. split; [exact E|reflexivity].
+Qed.
+
+Lemma step_paths s c r : HOK s ->
+  let s' := fst (step s c r) in
+  HOK s' /\ forall b, In b (blog s') -> call_ok s r b /\ gpath (b_path b).
+Proof.
+  intros H. cbv zeta. destruct (step_okp s c r) as [TB TH]. split.
+  - intros h q G. destruct (TH h q G) as [G0|G0]; [exact (H h q G0)|exact (okp_gpath s r q H G0)].
+  - intros b Hb. destruct (TB b Hb) as [[]|[A B]]. split; [split; [exact A|]|exact (okp_gpath s r _ H A)].
+    intros E. rewrite E in B. exact B.
+Qed.
+
+Lemma step_symlink_targets s c r b : In b (blog (fst (step s c r))) -> b_op b = BSymlink ->
+  is_abs (b_path2 b) = false /\ target_has_dotdot (b_path2 b) = false.
+Proof.
+  intros Hb E.
+  assert (R : T (fun _ => True) (clear_log s) (fst (step s c r))) by (apply step_T; intros; exact I).
+  destruct R as [TB _]. destruct (TB b Hb) as [[]|[_ B]]. rewrite E in B. exact B.
+Qed.
+
+(* "/"-separated components: [raw_split] is the inverse of joining with "/" *)
+Fixpoint join (l : list name) : list N :=
+  match l with [] => [] | c :: r => match r with [] => c | _ => c ++ slash :: join r end end.
+Lemma rs_go_nonempty s : forall cur, rs_go cur s <> [].
+Proof. induction s as [|x s IH]; intros cur; cbn [rs_go]; [discriminate|]. destruct (x =? slash); [discriminate|apply IH]. Qed.
+Lemma rs_go_join_inv s : forall cur, join (rs_go cur s) = rev cur ++ s.
+Proof.
+  induction s as [|x s IH]; intros cur; cbn [rs_go].
+  - cbn. rewrite app_nil_r. reflexivity.
+  - destruct (x =? slash) eqn:E.
+    + apply N.eqb_eq in E. subst x. cbn [join]. pose proof (rs_go_nonempty s []) as NE.
+      destruct (rs_go [] s) as [|c r] eqn:F; [congruence|]. rewrite <- F, IH. reflexivity.
+    + rewrite IH. cbn [rev]. rewrite <- app_assoc. reflexivity.
+Qed.
+Lemma rs_go_noslash_comps s : forall cur, ~ In slash cur -> forall c, In c (rs_go cur s) -> ~ In slash c.
+Proof.
+  induction s as [|x s IH]; intros cur Hc c; cbn [rs_go].
+  - intros [<-|[]] H. apply in_rev in H. exact (Hc H).
+  - destruct (x =? slash) eqn:E.
+    + intros [<-|H]; [intros F; apply in_rev in F; exact (Hc F)|exact (IH [] (fun f => f) c H)].
+    + apply IH. apply N.eqb_neq in E. intros [F|F]; [congruence|exact (Hc F)].
+Qed.
+Lemma raw_split_spec t : join (raw_split t) = t /\ forall c, In c (raw_split t) -> ~ In slash c.
+Proof. rewrite raw_split_rs. split; [apply (rs_go_join_inv t [])|apply (rs_go_noslash_comps t [] (fun f => f))]. Qed.
+(* the only way to write t as "/"-joined slash-free components is raw_split t *)
+Lemma join_split_unique l : l <> [] -> (forall c, In c l -> ~ In slash c) -> raw_split (join l) = l.
+Proof.
+  rewrite raw_split_rs. induction l as [|c r IH]; intros NE H; [congruence|].
+  assert (Hc : ~ In slash c) by (apply H; left; reflexivity).
+  destruct r as [|c2 r'].
+  - cbn [join]. rewrite <- (app_nil_r c) at 1. rewrite rs_go_noslash by exact Hc. cbn. rewrite app_nil_r, rev_involutive. reflexivity.
+  - change (join (c :: c2 :: r')) with (c ++ slash :: join (c2 :: r')).
+    rewrite rs_go_noslash by exact Hc. cbn [rs_go]. rewrite N.eqb_refl, app_nil_r, rev_involutive.
+    rewrite IH; [reflexivity|discriminate|intros x Hx; apply H; right; exact Hx].
+Qed.
+Lemma no_dotdot_component t : target_has_dotdot t = false <->
+  forall l, l <> [] -> (forall c, In c l -> ~ In slash c) -> t = join l -> ~ In [dot; dot] l.
+Proof.
+  rewrite target_no_dotdot_spec. split.
+  - intros H l NE Hl ->. rewrite join_split_unique in H by assumption. exact H.
+  - intros H. destruct (raw_split_spec t) as [J S]. apply H; [|exact S|symmetry; exact J].
+    rewrite raw_split_rs. apply rs_go_nonempty.
+Qed.
+
+(* READLINK *)
+Lemma step_readlink s c h : let o := snd (step s c (RReadlink h)) in
+  ob_status o = 0 -> ob_rpc o = 0 -> is_abs (ob_bytes o) = true \/ target_has_dotdot (ob_bytes o) = false.
+Proof.
+  cbv zeta. unfold step. cbn [garbage_reply]. unfold handle_readlink. set (s0 := clear_log s). intros _ _.
+  destruct (lookup_node s0 h) as [[p na]|]; [|right; reflexivity].
+  destruct (negb (kind_eqb (na_kind na) KLink)); [right; reflexivity|].
+  destruct (be_readlink (fs (logc s0 (bc BReadlink p))) p) as [t|e]; [|right; reflexivity].
+  destruct (negb (is_abs t) && target_has_dotdot t) eqn:E; [right; reflexivity|].
+  destruct (getattr_h (logc s0 (bc BReadlink p)) h p) as [s2 ga]. destruct ga as [a|e]; [|right; reflexivity].
+  cbn [snd ob_mk ob_bytes]. destruct (is_abs t); [left; reflexivity|right; exact E].
+Qed.
+(* the failure replies carry no target at all, and a failure is never reported with status 0 *)
+Lemma map_error_nonzero e : map_error e <> 0.
+Proof. destruct e; vm_compute; discriminate. Qed.
+Lemma step_readlink_ok s c h : let o := snd (step s c (RReadlink h)) in
+  ob_status o = 0 -> exists p t, get (hm s) h = Some p /\ be_readlink (fs s) p = Ok t /\ ob_bytes o = t.
+Proof.
+  cbv zeta. unfold step. cbn [garbage_reply]. unfold handle_readlink. set (s0 := clear_log s).
+  destruct (lookup_node s0 h) as [[p na]|] eqn:L; [|intros F; vm_compute in F; discriminate].
+  apply lookup_node_get in L.
+  destruct (negb (kind_eqb (na_kind na) KLink)); [intros F; vm_compute in F; discriminate|].
+  destruct (be_readlink (fs (logc s0 (bc BReadlink p))) p) as [t|e] eqn:B;
+    [|intros F; exfalso; exact (map_error_nonzero e F)].
+  destruct (negb (is_abs t) && target_has_dotdot t); [intros F; vm_compute in F; discriminate|].
+  destruct (getattr_h (logc s0 (bc BReadlink p)) h p) as [s2 ga]. destruct ga as [a|e];
+    [|intros F; exfalso; exact (map_error_nonzero e F)].
+  intros _. exists p, t. split; [exact L|split; [exact B|reflexivity]].
+Qed.
+
+(* undecodable strings (over-long or containing NUL): the request is answered without any backend call *)
+Lemma step_garbage s c r o : garbage_reply (clear_log s) r = Some o -> blog (fst (step s c r)) = [].
+Proof. intros G. unfold step. rewrite G. reflexivity. Qed.
+Lemma garbage_name s r : garbage_reply s r = None ->
+  match r with
+  | RLookup _ n | RCreate _ n _ _ | RMkdir _ n _ | RRemove _ n | RRmdir _ n => str_ok n = true
+  | RSymlink _ n _ t => str_ok n = true /\ str_ok t = true
+  | RRename _ n1 _ n2 => str_ok n1 = true /\ str_ok n2 = true
+  | RMnt p => str_ok p = true
+  | _ => True
+  end.
+Proof.
+  destruct r; cbn [garbage_reply]; try (intros; exact I); try (destruct (str_ok n); [reflexivity|discriminate]).
+  - destruct (str_ok n), (str_ok target); cbn [andb]; try (intros; split; reflexivity); des; discriminate.
+  - destruct (str_ok n1), (str_ok n2); cbn [andb]; try (intros; split; reflexivity); des; discriminate.
+  - destruct (str_ok p); [reflexivity|discriminate].
+Qed.
+
+(* ====================================================================================================== *)
+(* 7. histories                                                                                           *)
+(* ====================================================================================================== *)
+Lemma HOK_init f c mx t : HOK (srv_init_fs f c mx t).
+Proof. intros h p G. discriminate G. Qed.
+
+Definition hfinal (s : srv) (l : list hstep) : srv := fold_left (fun s x => fst (hrun1 s x)) l s.
+
+Lemma hrun1_paths s x : HOK s ->
+  HOK (fst (hrun1 s x)) /\ forall b, In b (blog (fst (hrun1 s x))) -> call_ok s (hs_req x) b /\ gpath (b_path b).
+Proof. intros H. exact (step_paths (with_now s (now s + hs_adv x)) (hs_cred x) (hs_req x) H). Qed.
+Lemma hfinal_HOK l : forall s, HOK s -> HOK (hfinal s l).
+Proof. induction l as [|x r IH]; intros s H; [exact H|]. cbn. apply IH. apply hrun1_paths. exact H. Qed.
+
+(* the elements of [hrun s l] are exactly the steps taken from the state reached after a prefix *)
+Lemma hrun_states l : forall s so, In so (hrun s l) <-> exists l1 x l2, l = l1 ++ x :: l2 /\ so = hrun1 (hfinal s l1) x.
+Proof.
+  induction l as [|y r IH]; intros s so; cbn [hrun].
+  - split; [intros []|]. intros (l1 & x & l2 & E & _). destruct l1; discriminate.
+  - split.
+    + intros [<-|H]; [exists [], y, r; split; reflexivity|].
+      apply IH in H. destruct H as (l1 & x & l2 & -> & ->). exists (y :: l1), x, l2. split; reflexivity.
+    + intros (l1 & x & l2 & E & ->). destruct l1 as [|z l1]; cbn in E; injection E as <- ->.
+      * left. reflexivity.
+      * right. apply IH. exists l1, x, l2. split; reflexivity.
+Qed.
+
+Lemma hrun_paths l s : HOK s -> forall so, In so (hrun s l) ->
+  HOK (fst so) /\
+  exists l1 x l2, l = l1 ++ x :: l2 /\ so = hrun1 (hfinal s l1) x /\ HOK (hfinal s l1) /\
+    forall b, In b (blog (fst so)) -> call_ok (hfinal s l1) (hs_req x) b /\ gpath (b_path b).
+Proof.
+  intros H so Hso. apply hrun_states in Hso. destruct Hso as (l1 & x & l2 & -> & ->).
+  pose proof (hfinal_HOK l1 s H) as H1. destruct (hrun1_paths (hfinal s l1) x H1) as [A B].
+  split; [exact A|]. exists l1, x, l2. repeat split; auto; apply B; assumption.
+Qed.
+
+Lemma reachable_paths f c mx t l :
+  let s := hfinal (srv_init_fs f c mx t) l in
+  HOK s /\ forall x, let s' := fst (hrun1 s x) in
+           HOK s' /\ forall b, In b (blog s') -> call_ok s (hs_req x) b /\ gpath (b_path b).
+Proof.
+  cbv zeta. pose proof (hfinal_HOK l _ (HOK_init f c mx t)) as H. split; [exact H|].
+  intros x. apply hrun1_paths. exact H.
+Qed.
+
+(* ====================================================================================================== *)
+(* 8. an executable check of the invariant, and the witnesses of the non-vacuity examples                 *)
+(* ====================================================================================================== *)
+Definition gcomp_b (c : name) : bool :=
+  negb (match c with [] => true | _ => false end) && negb (existsb (fun b => b =? slash) c) && negb (is_dot c) && negb (is_dotdot c).
+Definition hok_b (s : srv) : bool := forallb (fun e => forallb gcomp_b (snd e)) (handles (hm s)).
+
+Lemma gcomp_b_spec c : gcomp_b c = true <-> gcomp c.
+Proof.
+  unfold gcomp_b, gcomp. rewrite !andb_true_iff, !negb_true_iff, existsb_eqb_false, is_dot_false, is_dotdot_false.
+  destruct c as [|x c'].
+  - split; [intros [[[H _] _] _]; discriminate|intros [H _]; congruence].
+  - split; [intros [[[_ H1] H2] H3]; repeat split; auto; discriminate|intros (_ & H1 & H2 & H3); repeat split; auto].
+Qed.
+Lemma assocH_In {P} (h : N) (l : list (N * P)) p : assocH h l = Some p -> In (h, p) l.
+Proof.
+  induction l as [|[k q] r IH]; cbn [assocH]; [discriminate|].
+  destruct (k =? h) eqn:E; [apply N.eqb_eq in E; intros [= ->]; subst; left; reflexivity|intros H; right; apply IH; exact H].
+Qed.
+Lemma hok_b_HOK s : hok_b s = true -> HOK s.
+Proof.
+  unfold hok_b, HOK. intros H h p G. apply assocH_In in G.
+  apply (proj1 (forallb_forall _ _) H) in G. cbn [snd] in G.
+  apply Forall_forall. intros c Hc. apply gcomp_b_spec. exact (proj1 (forallb_forall _ _) G c Hc).
+Qed.
+
+Definition ex_cfg : cfg :=
+  {| tsize := 65536; ro := false; maxfile := 0; attr_ttl := 5; attr_cap := 10; neg_on := true; neg_ttl := 5;
+     dir_on := true; dir_ttl := 5; dir_cap := 10; dir_maxsize := 10 |}.
+Definition ex_cred : cred := {| c_uid := 0; c_gid := 0; c_aux := [] |}.
+Definition ex_sattr : sattr :=
+  {| s_mode := Some 493; s_uid := None; s_gid := None; s_size := None; s_atime := 0; s_atime_v := 0; s_mtime := 0; s_mtime_v := 0 |}.
+(* MNT "/", MKDIR d, CREATE d/f, SYMLINK d/l -> "f", LOOKUP d, READDIRPLUS d *)
+Definition ex_history : list hstep :=
+  map (fun r => {| hs_adv := 1; hs_cred := ex_cred; hs_req := r |})
+    [RMnt [47]; RMkdir 1 [100] ex_sattr; RCreate 2 [102] 0 ex_sattr; RSymlink 2 [108] ex_sattr [102];
+     RLookup 1 [100]; RReaddirplus 2 0 4096 4096].
+Definition ex_state : srv := hfinal (srv_init_fs fs_init ex_cfg 0 100) ex_history.
